@@ -1311,6 +1311,10 @@ namespace Pistache::Async
             {
                 std::lock_guard<std::mutex> guard(data->mtx);
 
+                // only the first rejection settles the promise, later ones are ignored
+                if (data->rejected)
+                    return;
+
                 data->rejected = true;
                 data->reject(exc);
             }
@@ -1371,6 +1375,10 @@ namespace Pistache::Async
             static void reject(std::exception_ptr exc, Data& data)
             {
                 std::lock_guard<std::mutex> guard(data->mtx);
+
+                // the first outcome settled the promise, later ones are ignored
+                if (data->done)
+                    return;
 
                 data->done = true;
                 data->reject(exc);
